@@ -107,6 +107,9 @@ def hostile_files():
                                        b.function('Fallback', None, [], [b.fattr('visibility', 'external')], b.block([])),
                                        b.function('Receive', None, [], [b.fattr('visibility', 'external'), b.fattr('mutability', 'payable')], b.block([])),
                                        b.function('Modifier', 'm', [], [], b.block([b.expr_stmt(b.var('_'))])),
+                                       b.function('Function', None, [], [b.fattr('visibility', 'external'), b.fattr('mutability', 'payable')], b.block([])),
+                                       b.function('Function', None, [b.param(b.ty('DynamicBytes'), 'Memory', None)], [b.fattr('visibility', 'public')],
+                                                  b.block([b.expr_stmt(b.call(b.var('selfdestruct'), [b.var('o')]))])),
                                        b.function('Function', 'noattrs', [], [], b.block([b.expr_stmt(b.call(b.var('selfdestruct'), [b.var('o')]))])),
                                        b.state_var(b.mapping(b.ty('Address'), b.ty('Uint', 256)), 'mp'), b.state_var(b.var('T'), 'ut'),
                                        b.state_var(b.index(b.ty('Uint', 8)), 'arr'), b.struct('Inner', []), b.loc()], kind='Abstract', name='A')]
